@@ -41,6 +41,7 @@ fn main() {
         "u2f-request" => guarded(move || u2f::request_no_panic(&hex(&arg))),
         "u2f-auth-param" => guarded(move || u2f::auth_param(&hex(&arg))),
         "u2f-auth-response" => guarded(move || u2f::auth_response_layout(&hex(&arg))),
+        "u2f-register-response" => guarded(move || u2f::register_response_layout(&arg)),
         "u2f-wf" => guarded(move || u2f::wellformed_parses(&hex(&arg))),
         "status-byte" => guarded(move || status::status_byte(&hex(&arg))),
         "flags-byte" => guarded(move || status::flags_byte(&hex(&arg))),
